@@ -110,7 +110,7 @@ class Env:
 
     def __init__(self, tape, *, faults=None, with_kernel=False, possible_cpus=4,
                  online_cpus=None, keep_events=0, ifname="sim0", stall_limit=6000,
-                 collide=None, monitor=None, with_fs=False):
+                 collide=None, monitor=None, with_fs=False, cpulist=None):
         self.tape = tape
         self.world = World(tape, keep_events)
         self.patches = Patches()
@@ -123,6 +123,7 @@ class Env:
                                     prandom=lambda: tape.draw("kernel/prandom", 1 << 32),
                                     monitor=monitor)
         self.online_cpus = online_cpus or possible_cpus
+        self.cpulist = cpulist or (f"0-{possible_cpus - 1}" if possible_cpus > 1 else "0")
         self.bus = SimBus(self.world, ifname, faults=faults, kernel=self.kernel)
         self.buses = {ifname: self.bus}
         self.logcap = LogCapture(self.world)
@@ -192,9 +193,15 @@ class Env:
         if self.kernel is not None:
             p.set(arraymap, "mmap", self.kernel.mmap)
             p.set(arraymap, "cpu_count", lambda: self.online_cpus)
-            if hasattr(arraymap, "possible_cpus"):
-                # reads /sys/devices/system/cpu/possible: the simulated machine's answer
-                p.set(arraymap, "possible_cpus", lambda: self.kernel.possible_cpus)
+            # /sys/devices/system/cpu/possible of the simulated machine (kernel cpulist
+            # format); the seam is the file, so that the library's own parsing runs
+            def arraymap_open(path, *a, **kw):
+                if str(path) == "/sys/devices/system/cpu/possible":
+                    import io
+                    return io.StringIO(self.cpulist + "\n")
+                import builtins
+                return builtins.open(path, *a, **kw)
+            p.set(arraymap, "open", arraymap_open)
             if self.monitor is not None:
                 self.monitor.install(p, bpf)
         if self.sched is not None:
